@@ -101,6 +101,7 @@ type HandleCall struct {
 }
 
 type Ctl struct {
+	OldUnfinished int // TunePool: dispatched and unfinished jobs at the return
 	Op        string
 	Arg       int
 	Call, Ret int
@@ -703,6 +704,13 @@ func (w *W) TunePool(n int) error {
 	c := w.h.ctlCall(w, "TunePool", n)
 	old := w.Limits[len(w.Limits)-1].Val
 	err := w.Wk.TunePool(n)
+	if err == nil && !vrt.RaceMode {
+		// how many dispatched jobs are unfinished at the return: the getter's view, but never less than what
+		// the harness itself sees executing (C02.tune, see oracle)
+		p := 0
+		vrt.RawDo(func() { p = w.Wk.NumProcessing() })
+		c.OldUnfinished = max(p, w.Inflight)
+	}
 	if err == nil {
 		eff := n
 		if eff < 1 {
